@@ -157,13 +157,13 @@ inductive ErrKind where
   | driverEnded             -- `ResultRecv` / `OpSend`: the driver turn returned `Err`
   | nativeTls               -- `create_tls_stream(..)?`
   | timeout                 -- `conn_timeout` elapsed
+  | notLdapResult           -- the response under the request's ID is not an LDAPResult: `op_call`'s decoding error (F27; a panic before)
   deriving Repr, DecidableEq
 
 inductive Outcome where
   | okSecure                -- `Ok((conn, ldap))`, `conn.stream` runs over TLS
   | okPlain                 -- `Ok((conn, ldap))` over TCP (scheme `ldap` without StartTLS)
   | err (k : ErrKind)
-  | panic                   -- `expect("ldap result")` in `op_call`, on the caller's task
   | hang                    -- the future never resolves
   deriving Repr, DecidableEq
 
@@ -273,7 +273,7 @@ def afterRequest (lib : TlsLib) (c : Cfg) (s : Server) (buf : Bytes) (chunks : L
   | .response op sk skb resp rest unread =>
     let w := { w with decoded := sk ++ [(1, op)], consumed := skb ++ resp, response := resp }
     match resultExt op with
-    | none => { w with outcome := .panic }
+    | none => { w with outcome := .err .notLdapResult }
     | some r =>
       if r.rc ≠ 0 then { w with outcome := .err (.ldapResult r.rc) }
       else tlsPhase lib c s { w with discarded := rest } unread.flatten
